@@ -3,7 +3,17 @@
 import json, sys
 sys.path.insert(0, "/verif/tools")
 from manifest_table import CHECKS, NOT_APPLICABLE, FIX_COMMITS
+import os
 props = [json.loads(l)["id"] for l in open("/verif/properties.jsonl")]
+# a check built by its own module describes itself in harness/props/<id>.meta.json
+for pid in props:
+    mp = "/verif/harness/props/%s.meta.json" % pid.lower()
+    if os.path.exists(mp) and pid not in CHECKS:
+        meta = json.load(open(mp))
+        if meta.get("claimed", True):
+            CHECKS[pid] = meta
+        else:
+            NOT_APPLICABLE[pid] = meta["reason"]
 checks = []
 for pid in props:
     if pid not in CHECKS:
